@@ -537,3 +537,95 @@ func vpGenNoFloat(out []byte, tag byte, depth int, budget *int) []byte {
 	}
 	return out
 }
+
+// large typed arrays, lists and strings through binary -> text -> binary: sizes
+// beyond any internal block (1 KiB scratch, bufio's 4 KiB), contents concrete
+// except one arbitrary element at the block boundary (decimal formatting of a
+// symbolic element forks on its digit count).
+func VP_C04_big_roundtrip() {
+	kind := vp.Choice(5)
+	n := []int{1025, 300, 140, 1100, 5000}[kind]
+	if vp.Tier() == 1 && vp.Bool() {
+		n = []int{4100, 1030, 520, 4100, 70000}[kind]
+	}
+	vp.SizeBound(8*n + 64)
+	vp.Unwind(8*n + 64)
+	vp.MaxSteps(400000000)
+	x := vp.Int8()
+	at := 1024
+	if at >= n {
+		at = n / 2
+	}
+	var tag byte
+	var b []byte
+	switch kind {
+	case 0:
+		tag = TagByteArray
+		b = vpBE(uint64(n), 4)
+		for i := 0; i < n; i++ {
+			if i == at {
+				b = append(b, byte(x))
+			} else {
+				b = append(b, byte(i*7))
+			}
+		}
+	case 1:
+		tag = TagIntArray
+		b = vpBE(uint64(n), 4)
+		for i := 0; i < n; i++ {
+			v := int32(i*2654435 - 40000000)
+			if i == at {
+				v = int32(x)
+			}
+			b = append(b, vpBE(uint64(uint32(v)), 4)...)
+		}
+	case 2:
+		tag = TagLongArray
+		b = vpBE(uint64(n), 4)
+		for i := 0; i < n; i++ {
+			v := int64(i)*0x0123456789abcd - 1<<60
+			if i == at {
+				v = int64(x)
+			}
+			b = append(b, vpBE(uint64(v), 8)...)
+		}
+	case 3:
+		tag = TagList
+		b = append([]byte{TagShort}, vpBE(uint64(n), 4)...)
+		for i := 0; i < n; i++ {
+			v := int16(i*37 - 20000)
+			if i == at {
+				v = int16(x)
+			}
+			b = append(b, vpBE(uint64(uint16(v)), 2)...)
+		}
+	default:
+		tag = TagString
+		b = vpBE(uint64(n), 2)
+		for i := 0; i < n; i++ {
+			c := byte('a' + i%26)
+			if i%97 == 0 {
+				c = '"'
+			}
+			if i%101 == 0 {
+				c = '\\'
+			}
+			if i == at {
+				c = byte(x) & 0x7f
+			}
+			b = append(b, c)
+		}
+	}
+	var m StringifiedMessage
+	err := m.UnmarshalNBT(tag, &vpByteReader{b: b})
+	vp.Assert(err == nil, "a well-formed value converts to text")
+	var w vpBuf
+	err = m.MarshalNBT(&w)
+	vp.Assert(err == nil, "the text produced parses back")
+	vp.Assert(m.TagType() == tag, "the text announces the original tag type")
+	vp.Assert(len(w.b) == len(b), "text form parses back to the identical value")
+	for i := 0; i < len(b) && i < len(w.b); i++ {
+		vp.Assert(w.b[i] == b[i], "text form parses back to the identical value")
+	}
+	vp.Cover("end")
+}
